@@ -1,0 +1,24 @@
+//go:build verif
+
+package core
+
+// Verification hooks (add-only, build tag verif): wrappers only, no behaviour
+// change. They give the scan harness access to the package-level behaviour
+// cache that Scan consults before probing a filesystem.
+
+// VerifSetBehaviorCache stores behavioural information for a device in the
+// behaviour cache, exactly as Scan does after a probe that used probe files.
+func VerifSetBehaviorCache(deviceID uint64, preservesExecutability, decomposesUnicode bool) {
+	behaviorCache.Lock()
+	behaviorCache.preservesExecutability[deviceID] = preservesExecutability
+	behaviorCache.decomposesUnicode[deviceID] = decomposesUnicode
+	behaviorCache.Unlock()
+}
+
+// VerifClearBehaviorCache removes a device from the behaviour cache.
+func VerifClearBehaviorCache(deviceID uint64) {
+	behaviorCache.Lock()
+	delete(behaviorCache.preservesExecutability, deviceID)
+	delete(behaviorCache.decomposesUnicode, deviceID)
+	behaviorCache.Unlock()
+}
